@@ -1,8 +1,159 @@
-"""C09 - multiprecision gcd, extended gcd and modular inverse are exact, with valid Bezout cofactors."""
+"""C09 - multiprecision gcd, extended gcd and modular inverse are exact, with valid Bezout cofactors.
+
+(M) Gcd.tla scaled loop model; (V) GcdTrace.tla on API results (Strict); (V') GcdStepTrace.tla: one event per iteration
+of the real gcd_internal loop (hooks in arith_gcd.rs) replayed against the loop model at the real word size (Drift only;
+VERIF_C09_STEPS=0 switches it off)."""
 import os
 from .. import core
 
 LEVEL = "model_checking"
+STEPS = os.environ.get("VERIF_C09_STEPS", "1") != "0"   # per-iteration binding of the loop model (GcdStepTrace.tla)
+
+REACH = {  # reachability questions of the scaled model <-> what the real loop does (counted from the step trace)
+    "FastUnreachable": lambda e: e["op"] == "fast",
+    "SlowPlusUnreachable": lambda e: e["op"] == "slow" and e["plus"],
+    "NegSignUnreachable": lambda e: e["op"] == "fast" and "A" in e and (e["A"]["neg"] or e["B"]["neg"]) and (e["C"]["neg"] or e["D"]["neg"]),
+    "SlowWideUnreachable": lambda e: e["op"] == "slow" and e["why"] & 1 != 0,
+    "SlowTopSmallUnreachable": lambda e: e["op"] == "slow" and e["why"] == 4,
+    "BothZeroUnreachable": lambda e: e["op"] == "exit" and e["how"] == "ret_y",
+}
+
+
+def step_binding(chk, w, steps, api_rejects):
+    """(V') one event per iteration of the real loop, replayed against the loop model at the real word size.
+    Everything here is Drift; the negative controls show that the trace specification is not vacuous."""
+    sevs = core.read_ndjson(steps)
+    r = core.validate_trace("gcd/GcdStepTrace.tla", "GcdStepTrace.cfg", steps, group_key="case", timeout=1700,
+                            weight=lambda e: 3 if "A" in e else 1, tag="steps")
+    chk.add_tv(r)
+    kinds = {}
+
+    def bump(k):
+        kinds[k] = kinds.get(k, 0) + 1
+
+    why = {}
+    for e in sevs:
+        op = e["op"]
+        if op == "slow":
+            bump("slow_plus" if e["plus"] else "slow")
+            why[str(e["why"])] = why.get(str(e["why"]), 0) + 1
+        elif op == "exit":
+            bump(e["how"])
+        elif op == "enter":
+            bump("enter")
+            bump("enter_N%d_%s" % (e["N"], "ext" if e["ext"] else "plain"))
+        else:
+            bump(op)
+    chk.cov["step_events"] = kinds
+    chk.cov["step_slow_reasons"] = {"mask_counts": why, "legend": "1: x within 36 bits of the type width, 2: y within 36 bits, "
+                                    "4: top word of y below 2^32"}
+    rels = {}
+    for e in sevs:
+        if e["op"] == "enter":
+            rels[e["shape"]["rel"]] = rels.get(e["shape"]["rel"], 0) + 1
+    chk.cov["step_calls_by_relation"] = rels
+    need = ["enter", "swap", "slow", "slow_plus", "fast", "fin64", "ret_x", "ret_y", "result",
+            "enter_N8_ext", "enter_N8_plain", "enter_N16_ext", "enter_N16_plain"]
+    missing = [k for k in need if not kinds.get(k)]
+    missing += ["slow_reason_%s" % k for k in ("1", "4") if not any(int(m) & int(k) for m in why)]
+    # (a loop that no longer follows the model may also stop taking some branch: that is reported as drift, and
+    #  a run cut short by hung calls reports those first)
+    clean = not r["rejects"] and not api_rejects
+    if missing and clean:
+        raise core.ToolError("step trace is vacuous for %s" % missing)
+    if missing:
+        chk.notes.append({"step_kinds_not_seen": missing})
+    # scaled model checking <-> real code, per reachability question
+    for q, f in REACH.items():
+        cnt = sum(1 for e in sevs if f(e))
+        mcr = {n["model"]: n["branch_reachable"] for n in chk.notes if isinstance(n, dict) and "model" in n and n.get("question") == q}
+        chk.notes.append({"question": q, "scaled_model_reachable": mcr, "real_code_events": cnt,
+                          "agree": {m: v == (cnt > 0) for m, v in mcr.items()}})
+    # negative controls: recorded groups with one field corrupted / one event dropped must be rejected
+    # (they start from accepted runs: meaningless when the recorded runs themselves drift from the model)
+    if not clean:
+        chk.notes.append({"step_negative_controls": "skipped: the recorded step trace is not accepted as it is"})
+        return
+    groups, cur = [], None
+    for e in sevs:
+        if e["op"] == "enter":
+            cur = []
+            groups.append(cur)
+        if cur is not None:
+            cur.append(e)
+
+    def pick(pred):
+        for g in groups:
+            if g[0]["ext"] and g[0]["N"] == 8 and pred(g):
+                return g
+        raise core.ToolError("negative control: no suitable recorded run")
+
+    def has(g, op, **kw):
+        return [j for j, e in enumerate(g) if e["op"] == op and all(e.get(k) == v for k, v in kw.items())]
+
+    import copy
+
+    def variant(name, g, fn):
+        g2 = copy.deepcopy(g)
+        g2 = fn(g2) or g2
+        for e in g2:
+            e["case"] = "neg:%s" % name
+            e.pop("i", None)
+        return g2
+
+    def bumpnat(d):
+        return [(d[0] + 1) % 4096] + d[1:] if d else [1]
+
+    def fastnz(g):  # fast events whose cofactor A is non-zero (so that flipping its sign is a change)
+        return [j for j in has(g, "fast") if g[j]["A"]["mag"]]
+
+    gf = pick(lambda g: len(has(g, "fast")) >= 2 and has(g, "swap") and fastnz(g))
+    gs = pick(lambda g: has(g, "slow"))
+    j_f = fastnz(gf)[0]
+    j_s = has(gs, "slow")[0]
+
+    def drop(j):
+        return lambda g: g[:j] + g[j + 1:]
+
+    def setf(j, k, f):
+        def go(g):
+            g[j][k] = f(g[j][k])
+        return go
+
+    controls = [
+        ("unchanged", gf, lambda g: None, False),
+        ("drop-fast-event", gf, drop(j_f), True),
+        ("drop-swap-event", gf, drop(has(gf, "swap")[0]), True),
+        ("drop-enter-event", gf, drop(0), True),
+        ("drop-exit-event", gf, drop(has(gf, "exit")[0]), True),
+        ("x-corrupted", gf, setf(j_f, "x", bumpnat), True),
+        ("matrix-entry-corrupted", gf, setf(j_f, "a", lambda v: {"neg": v["neg"], "mag": bumpnat(v["mag"])}), True),
+        ("cofactor-sign-flipped", gf, setf(j_f, "A", lambda v: {"neg": not v["neg"] and v["mag"] != [], "mag": v["mag"]}), True),
+        ("negx-flipped", gf, setf(j_f, "negx", lambda v: not v), True),
+        ("slow-plus-flipped", gs, setf(j_s, "plus", lambda v: not v), True),
+        ("slow-quotient-corrupted", gs, setf(j_s, "q", bumpnat), True),
+        ("result-corrupted", gf, setf(len(gf) - 1, "g", bumpnat), True),
+        ("exit-value-corrupted", gf, setf(has(gf, "exit")[0], "g", bumpnat), True),
+        ("x-grown", gf, setf(j_f, "x", lambda d: d + [0] * 6 + [1]), True),          # progress
+        ("matrix-entry-too-large", gf, setf(j_f, "a", lambda v: {"neg": v["neg"], "mag": [0, 0, 0, 16]}), True),   # 2^40
+    ]
+    neg = os.path.join(w, "steps_neg.ndjson")
+    core.write_ndjson(neg, [e for name, g, fn, _ in controls for e in variant(name, g, fn)])
+    rn = core.validate_trace("gcd/GcdStepTrace.tla", "GcdStepTrace.cfg", neg, group_key="case", timeout=600, shards=1,
+                             tag="steps-neg")
+    seen = {}
+    for x in rn["rejects"]:
+        if x["kind"] != "drift":
+            raise core.ToolError("negative control produced a %s reject" % x["kind"])
+        seen.setdefault(x["event"]["case"][4:], []).append(x["tag"])
+    for name, _, _, must in controls:
+        if must != bool(seen.get(name)):
+            raise core.ToolError("negative control %s: %s" % (name, "not rejected" if must else "rejected %s" % seen[name]))
+    chk.cov["step_negative_controls"] = {k: sorted(set(v)) for k, v in seen.items()}
+    chk.tv.append({"events": rn["events"], "states": rn["states"], "spec": rn["spec"] + " (negative controls)",
+                   "wall_s": rn["wall_s"], "rejects": len(rn["rejects"])})
+    chk.assumptions.append("step trace: hooks of arith_gcd.rs (cfg yamaquasi_verif) report the loop state faithfully; "
+                           "their judgement is Drift only")
 
 
 def run(chk, replay=None):
@@ -12,16 +163,24 @@ def run(chk, replay=None):
     for cfg in (["MC_Gcd_10.cfg"] if thorough else ["MC_Gcd_8.cfg"]):
         chk.add_mc(core.model_check("gcd/Gcd.tla", cfg, workers=4, timeout=1700))
     # every continuation of the loop is reachable in the model (expected: all three "unreachable" claims violated)
-    for inv in ("FastUnreachable", "SlowPlusUnreachable", "NegSignUnreachable"):
-        r = core.model_check("gcd/Gcd.tla", "MC_Gcd_reach_%s.cfg" % inv, workers=2, timeout=600, expect_error=True)
+    # (SlowWide needs operands within G bits of the scaled type width: not reachable below 2^6, reachable below 2^8)
+    for inv, cfg in [(i, "MC_Gcd_reach_%s.cfg" % i) for i in
+                     ("FastUnreachable", "SlowPlusUnreachable", "NegSignUnreachable", "SlowWideUnreachable",
+                      "SlowTopSmallUnreachable", "BothZeroUnreachable")] + [("SlowWideUnreachable", "MC_Gcd_reach8_SlowWideUnreachable.cfg")]:
+        r = core.model_check("gcd/Gcd.tla", cfg, workers=2, timeout=600, expect_error=True)
         chk.add_mc(r, invariants_expected_to_hold=False)
-        chk.notes.append({"model": r["cfg"], "branch_reachable": inv in r["violated"]})
+        chk.notes.append({"model": r["cfg"], "question": inv, "branch_reachable": inv in r["violated"]})
+    # ---- BEGIN inductive block (growth item "ind": unbounded results, thorough tier only) ----
+    if thorough and not replay:
+        _inductive(chk)
+    # ---- END inductive block ----
     # (I) input space
     shapes = os.path.join(w, "shapes.ndjson")
     nshapes, r = core.gen_shapes("gcd/GcdShapes.tla", "GcdShapes_%s.cfg" % ("thorough" if thorough else "quick"), shapes)
     chk.add_mc(r)
     # (V) real code; the thorough tier repeats the run on a build with debug assertions and overflow checks
     trace = os.path.join(w, "trace.ndjson")
+    steps = os.path.join(w, "steps.ndjson")
 
     def weight(e):
         bits = 12 * max(len(e.get("a", e.get("n", []))), len(e.get("b", e.get("p", []))), 1)
@@ -30,7 +189,12 @@ def run(chk, replay=None):
     res = None
     for profile in (["release", "relcheck"] if thorough else ["release"]):
         tr = trace if profile == "release" else os.path.join(w, "trace_relcheck.ndjson")
-        core.run_driver(["c09", "--seed", chk.seed, "--reps", 1, "--shapes", shapes], tr, timeout=1700, profile=profile)
+        args = ["c09", "--seed", chk.seed, "--reps", 1, "--shapes", shapes]
+        if STEPS and profile == "release" and not replay:
+            # per-iteration hooks of gcd_internal: every 8th shape of each (instantiation, relation) class in quick,
+            # every shape in thorough (full lattice invariant at every step for all / one in four of them)
+            args += ["--steps-every", 1 if thorough else 8, "--lat-every", 4 if thorough else 1, "--steps-out", steps]
+        core.run_driver(args, tr, timeout=1700, profile=profile)
         if replay:
             core.replay_filter(tr, replay)
         r = core.validate_trace("gcd/GcdTrace.tla", "GcdTrace.cfg", tr, timeout=1700, weight=weight, tag="GcdTrace-" + profile)
@@ -39,12 +203,16 @@ def run(chk, replay=None):
             res = r
         else:
             res["rejects"] = res["rejects"] + r["rejects"]
+    if STEPS and not replay:
+        step_binding(chk, w, steps, bool(res["rejects"]))
     evs = core.read_ndjson(trace)
     trivial = ("azero", "bzero", "bothzero")
     chk.count(evs, lambda e: None if e["shape"]["rel"] in trivial else (e["op"], e["case"]))
-    chk.rule = ("one gcd event (gcd_internal extended + big_gcd) and up to two inv_mod events (both argument orders) per "
+    chk.rule = ("[API] one gcd event (gcd_internal extended + big_gcd) and up to two inv_mod events (both argument orders) per "
                 "(instantiation x width pair x relation) enumerated by GcdShapes.tla, plus ZmodN::inv/gcd on a quarter of "
-                "the 512-bit shapes; seeded random filling; non-trivial = both operands non-zero; distinct by (op, case)")
+                "the 512-bit shapes; seeded random filling; non-trivial = both operands non-zero; distinct by (op, case). "
+                "[steps] for every 8th shape (quick) / every shape (thorough) of each (instantiation, relation) class, both "
+                "gcd_internal<N,true> and <N,false> are run once more with the per-iteration hooks on: one group of events per call")
     chk.cov["shapes"] = nshapes
     ops, rels = {}, {}
     for e in evs:
@@ -63,3 +231,37 @@ def run(chk, replay=None):
                         "harness encoding of words into base-4096 digits (bnum only as witness producer: the Bezout witness "
                         "is verified by the spec)",
                         "operands <= 64N - 12 bits (500 / 1012), modulus of inv_mod > 1, ZmodN modulus odd <= 500 bits"]
+
+
+# ---- BEGIN inductive block (growth item "ind") ----
+def _inductive(chk):
+    """Cofactor invariant x = A n + B p, y = C n + D p, unimodularity (also of the reduce64 matrix) and the Bezout
+    identity of the result for UNBOUNDED integers: TLAPS proof (GcdProofs.tla) of the restated loop GcdInd.tla, TLC
+    link of the restatement to Gcd.tla, Apalache counterexamples / failed proofs for the broken variants.
+    Anything unexpected here is a tool error (exit 2), never a violation."""
+    if not core.ind_enabled():
+        chk.notes.append("inductive block skipped (VERIF_NO_IND=1)")
+        return
+    ind = {"claim": "GcdInd!IndInv (Lattice, Unimodular, RedUnimod, BezoutOK) is inductive over the unbounded integers for "
+                    "every step with any quotient, including dot_product's sign bookkeeping (TLAPS); every step of the scaled "
+                    "model Gcd.tla (WB=4, NW=3, all pairs below 2^8) is a step of GcdInd and the recursion of Red is a path "
+                    "of GcdInd's reduce64 steps (TLC)",
+           "runs": []}
+    chk.add_mc(core.model_check("gcd/MC_GcdInd.tla", "MC_GcdInd_8.cfg", workers=4, timeout=1700))
+    ind["runs"].append(core.ind_expect(core.tlapm("gcd/GcdProofs.tla", timeout=900), "ok", "GcdProofs"))
+    bad = core.ind_expect(core.tlapm("gcd/GcdProofsBad.tla", timeout=900), "failed", "GcdProofsBad")
+    if bad["failed"] < 2:
+        raise core.ToolError("GcdProofsBad: %d failed obligations, expected both false claims to fail" % bad["failed"])
+    ind["runs"].append(bad)
+    # Apalache finds concrete counterexamples to induction for the broken variants (wrong sign of the rounded step's
+    # cofactors; dot_product flag without the b < 0 case).  The positive direction is left to TLAPS: the non-linear
+    # queries do not terminate in Z3.
+    for nxt in ("NextBadSlow", "NextBadDot"):
+        ind["runs"].append(core.ind_expect(core.apalache("gcd/GcdInd.tla", "IndInv", init="IndInit", next=nxt, length=1,
+                                                         timeout=900), "counterexample", "GcdInd " + nxt))
+    chk.cov["inductive"] = ind
+    chk.notes.append("inductive: cofactor invariant and unimodularity proved for unbounded integers (tlapm, %d obligations, %.0fs)" %
+                     (ind["runs"][0]["obligations"], ind["runs"][0]["wall_s"]))
+    chk.assumptions.append("tlapm (Z3, Zenon, Isabelle, PTL back ends) and apalache-mc/Z3 for the unbounded cofactor invariant; "
+                           "GcdInd.tla restates Gcd.tla without its size-dependent guards (linked by TLC: MC_GcdInd.tla)")
+# ---- END inductive block ----
